@@ -8,7 +8,7 @@
    correspondence (a panic where the model says Ok is a disagreement) and searched for by the crash
    search of props/C01.py. *)
 From Coq Require Import List NArith Bool Lia.
-From RB Require Import Gen.Flags Base.Result Model.Buffer Model.BufferOps Proofs.BufferBoundP.
+From RB Require Import Gen.Flags Base.Result Model.Buffer Model.BufferOps Proofs.BufferBoundP Proofs.BufferFrameP Proofs.BufferBoundFrameP.
 Import ListNotations.
 Local Open Scope N_scope.
 
@@ -39,6 +39,28 @@ Theorem C01_output_length : forall l lvl fl ops b',
   N.of_nat (length (pre b' ++ rest b')) <= N.max (N.of_nat (length l) * 64) 16384.
 Proof. exact run_output_length. Qed.
 Print Assumptions C01_output_length.
+
+(* the same with no hypothesis on the final buffer: no operation ever writes max_len, the cluster level or
+   the buffer flags (frame theorem over every operation and every sequence) *)
+Theorem C01_frame : forall ops b b', run b ops = Ok (Some b') ->
+  max_len b' = max_len b /\ level b' = level b /\ bflags b' = bflags b.
+Proof. exact run_frame. Qed.
+Print Assumptions C01_frame.
+
+Theorem C01_output_length_unconditional : forall l lvl fl ops b',
+  N.of_nat (length l) * MAX_LEN_FACTOR <= USIZE_MAX ->
+  run (init_buf l lvl fl) ops = Ok (Some b') -> out_mode b' = false ->
+  N.of_nat (length (pre b' ++ rest b')) <= N.max (N.of_nat (length l) * 64) 16384.
+Proof. exact run_output_length_all. Qed.
+Print Assumptions C01_output_length_unconditional.
+
+Theorem C01_output_length_in_output_mode : forall l lvl fl ops b',
+  N.of_nat (length l) * MAX_LEN_FACTOR <= USIZE_MAX ->
+  run (init_buf l lvl fl) ops = Ok (Some b') -> out_mode b' = true ->
+  N.of_nat (length (pre b')) <= N.max (N.of_nat (length l) * 64) 16384 /\
+  N.of_nat (dead b' + length (rest b')) <= N.max (N.of_nat (length l) * 64) 16384.
+Proof. exact run_output_length_outmode. Qed.
+Print Assumptions C01_output_length_in_output_mode.
 
 Example C01_example :
   J (init_buf [mkInfo 1 0 0 0 0; mkInfo 2 0 1 0 0] 0 3) /\
